@@ -15,13 +15,16 @@ theorem removeTrackBody_rw (s : Schema2) (L : Lib2) (t : Nat) : ∀ c ∈ remove
   intro c hc
   unfold removeTrackBody at hc
   simp only [List.mem_append, List.mem_flatMap, List.mem_cons, List.mem_singleton] at hc
-  rcases hc with (⟨l, _, hc⟩ | hc) | hc
+  rcases hc with ((⟨l, _, hc⟩ | hc) | hc) | hc
   · rcases hc with rfl | rfl | hc
     · rfl
     · rfl
     · cases hc
   · split at hc
     · simp only [List.mem_singleton] at hc; subst hc; rfl
+    · cases hc
+  · rcases hc with rfl | hc
+    · rfl
     · cases hc
   · rcases hc with rfl | hc
     · rfl
@@ -58,11 +61,12 @@ theorem removeTrack_writes (s : Schema2) (L : Lib2) (t : Nat)
     (hz : ¬ (L.tdb.rows.filter fun e => e.id == t).length = 0) :
     applyAll (writesOf (removeTrackBody s L t)) L = some (removed s t L) := by
   unfold removeTrackBody
-  rw [writesOf_append', writesOf_append']
-  rw [List.append_assoc]
+  rw [writesOf_append', writesOf_append', writesOf_append']
+  rw [List.append_assoc, List.append_assoc]
   rw [applyAll_append_some _ _ L _ (loop_writes t (ids L.pl) L)]
   cases hc : hasChangeLog s
-  · simp only [Bool.false_eq_true, if_false, writesOf, List.nil_append, applyAll, Option.bind, hz, removed, hc]
+  · simp only [Bool.false_eq_true, if_false, writesOf, tot, List.cons_append, List.nil_append, applyAll, Option.bind, hz,
+      removed, hc]
   · simp only [if_true, writesOf, tot, List.cons_append, List.nil_append, applyAll, Option.bind, Lib2.logNullify, hz,
       if_false, removed, hc]
 
